@@ -41,6 +41,8 @@ def max_instances():
             if v == "2.1":
                 args["confidence"] = 0
                 args["lang"] = "en"
+            known = getattr(O.module(v), cls)._properties
+            args = {k: x for k, x in args.items() if k in known}        # (the meta objects -- language content, extension definition -- lack some of the common properties)
             out.append(("%s %s" % (v, typ), v, cls, args))
     # a 2.1 observable with a nested extension, a dictionary property and zero-valued properties
     out.append(("2.1 file(sco)", "2.1", "File", {"name": "", "size": 0, "hashes": {"MD5": "d41d8cd98f00b204e9800998ecf8427e"},
